@@ -5,6 +5,9 @@
 //                     checker (value through NF, structural completeness, canonical polynomial form) and by the oracles
 //   rexpand E         radical family (radicals of sums, D9): Lean answers SKIP; oracles only
 //   pair E1 E2        output  dump(expand E1) ;; dump(expand E2) ;; eq-flag      (identity decision)
+//   rpair E1 E2       radical / symbolic-power products: E1 = symbols * (base)^q ... with products and integer powers
+//                     of sums *inside* the bases, E2 = the same with the bases expanded by the harness' own
+//                     schoolbook expansion; the two expansions must be eq; Lean answers SKIP; oracles only
 //   multinomial m n   output  k1,k2,..=c;...  (entries of multinomial_coefficients_mpz(m, n) in key order)
 //
 // Oracles (independent of the Lean side and of the library's own arithmetic):
@@ -965,6 +968,36 @@ std::string hx_run(const std::string &line, std::string &oracle)
         }
         return vsexp::dump(*r);
     }
+    if (op == "rpair" && nodes.size() == 3) {
+        B e1 = vsexp::build(nodes[1]), e2 = vsexp::build(nodes[2]);
+        B r1, r2;
+        try {
+            r1 = expand(e1);
+            r2 = expand(e2);
+        } catch (const VerifAssertError &ex) {
+            oracle = std::string("FAIL:assert:") + ex.what();
+            return "E:Assert";
+        } catch (const std::exception &ex) {
+            oracle = std::string("FAIL:exception:") + exc_name(ex) + " " + ex.what();
+            return exc_name(ex);
+        }
+        stat("ops_rpair");
+        bool same = eq(*r1, *r2);
+        std::string d1 = vsexp::dump(*r1), d2 = vsexp::dump(*r2);
+        try {
+            // completeness (also inside the bases of non-integer powers: ExpandVisitor::bvisit(Pow) expands the
+            // base whatever the exponent is), idempotence and value of both expansions
+            judgeExpand(e1, r1, true, oracle);
+            if (oracle == "ok")
+                judgeExpand(e2, r2, true, oracle);
+        } catch (const VerifAssertError &ex) {
+            oracle = std::string("FAIL:assert-second-pass:") + ex.what();
+        }
+        if (oracle == "ok" && (!same || d1 != d2))
+            oracle = "FAIL:radical-identity:expand of the nested form = " + d1.substr(0, 150)
+                     + " differs from expand of the form with expanded bases = " + d2.substr(0, 150);
+        return d1 + " ;; " + d2 + " ;; " + (same ? "1" : "0");
+    }
     if (op == "pair" && nodes.size() == 3) {
         B e1 = vsexp::build(nodes[1]), e2 = vsexp::build(nodes[2]);
         B r1, r2;
@@ -1440,6 +1473,122 @@ static void genCancel(Rng &r, int count)
     }
 }
 
+// rebuild an expression from a schoolbook dictionary (no INV factors, real rational coefficients) through the
+// public API
+static B fromPoly(const PolyD &p)
+{
+    vec_basic terms;
+    for (auto &kv : p.t) {
+        const TermKey &k = kv.second.first;
+        const GQ &c = kv.second.second;
+        if (k.inv || !c.im.isZero())
+            throw Unsupported("fromPoly");
+        vec_basic fs;
+        fs.push_back(vsexp::num_from_rat(vsexp::parse_rat(c.re.str())));
+        for (auto &a : k.ex)
+            fs.push_back(pow(vsexp::parse(a.first), integer(a.second)));
+        terms.push_back(mul(fs));
+    }
+    return add(terms);
+}
+
+// Products of symbols with radicals / symbolic powers whose bases contain products or integer powers of sums
+// (ExpandVisitor::bvisit(Mul) -> as_two_terms -> bvisit(Pow) must expand the bases).  Every coefficient is
+// positive so that the numeric oracle stays on the positive axis.
+static void genRadProd(Rng &r, int count)
+{
+    GenOpts o;
+    o.nsyms = 4;
+    int made = 0, tries = 0;
+    auto psum = [&](int n) { // positive linear sum
+        vec_basic v;
+        if (r.coin())
+            v.push_back(integer(r.range(1, 3)));
+        for (int i = 0; i < n; i++)
+            v.push_back(mul(integer(r.range(1, 3)), gsym(r, o)));
+        return add(v);
+    };
+    auto inner = [&]() -> B {
+        switch (r.below(5)) {
+            case 0: // s + (sum)^n
+                return add(gsym(r, o), pow(psum(1 + (int)r.below(2)), integer(r.range(2, 3))));
+            case 1: // s + s*(sum)
+                return add(gsym(r, o), mul(gsym(r, o), psum(2)));
+            case 2: // c + (sum)^2 + s*(sum)
+                return add({integer(r.range(1, 4)), pow(psum(2), integer(2)), mul(gsym(r, o), psum(1 + (int)r.below(2)))});
+            case 3: // (sum)*(sum) + s
+                return add(mul(psum(1 + (int)r.below(2)), psum(2)), gsym(r, o));
+            default: // 2*(sum)^2*s + c   (product with coefficient and a power of a sum)
+                return add(mul({integer(2), pow(psum(2), integer(2)), gsym(r, o)}), integer(r.range(1, 3)));
+        }
+    };
+    static const long nums[] = {1, -1, 1, 3, -1, 2, 1, 5};
+    static const long dens[] = {2, 2, 3, 2, 3, 3, 4, 2};
+    while (made < count && tries < count * 40) {
+        tries++;
+        try {
+            int nrad = 1 + (int)r.coin(1, 3);
+            vec_basic f1, f2;
+            bool ok = true;
+            for (int k = 0; k < nrad && ok; k++) {
+                B in = inner();
+                if (!is_a<Add>(*in)) {
+                    ok = false;
+                    break;
+                }
+                g_work = 0;
+                B ex = fromPoly(normalise(*in));
+                B q;
+                if (r.coin(1, 4))
+                    q = r.coin() ? rcp_static_cast<const Basic>(symbol("t")) : div(gsym(r, o), integer(2));
+                else {
+                    unsigned j = r.below(8);
+                    q = Rational::from_two_ints(*integer(nums[j]), *integer(dens[j]));
+                }
+                f1.push_back(pow(in, q));
+                f2.push_back(pow(ex, q));
+            }
+            if (!ok)
+                continue;
+            // the other factors: bare symbols, integer powers of symbols, symbol^symbol, a numeric coefficient
+            int nsym = 1 + (int)r.below(2);
+            for (int k = 0; k < nsym; k++) {
+                B sfac = gsym(r, o);
+                unsigned c = r.below(10);
+                if (c < 3)
+                    sfac = pow(sfac, integer(r.range(2, 3)));
+                else if (c < 4)
+                    sfac = pow(sfac, symbol("t"));
+                f1.push_back(sfac);
+                f2.push_back(sfac);
+            }
+            if (r.coin(1, 3)) {
+                B c = r.coin() ? rcp_static_cast<const Basic>(integer(r.range(2, 5)))
+                               : rcp_static_cast<const Basic>(Rational::from_two_ints(*integer(r.range(1, 5)), *integer(r.range(2, 3))));
+                f1.push_back(c);
+                f2.push_back(c);
+            }
+            B e1 = mul(f1), e2 = mul(f2);
+            if (!is_a<Mul>(*e1))
+                continue;
+            std::string tag = "radprod";
+            if (r.coin(1, 4)) { // the product as a term of a sum
+                B extra = add(gsym(r, o), integer(r.range(1, 3)));
+                e1 = add(e1, extra);
+                e2 = add(e2, extra);
+                tag = "radprod-in-sum";
+            }
+            std::string d1 = vsexp::dump(*e1), d2 = vsexp::dump(*e2);
+            if (d1 == d2 || d1.size() + d2.size() > 6000 || !g_seen.insert(d1).second)
+                continue;
+            emit("rpair " + d1 + " " + d2, tag);
+            made++;
+        } catch (const std::exception &) {
+            stat("gen_constructor_exception");
+        }
+    }
+}
+
 static void genFixed()
 {
     B x = symbol("x"), y = symbol("y"), z = symbol("z"), w = symbol("w");
@@ -1515,5 +1664,6 @@ void hx_gen(Rng &r, const std::string &tier)
     rad.maxpow = 3;
     genFamily(r, rad, "radical", 40 * scale, 2, 60, 0);
     genCancel(r, 60 * scale);
+    genRadProd(r, 60 * scale);
     genPairs(r, 120 * scale);
 }
